@@ -61,16 +61,6 @@ def fix_record(ex, model, rec):
 DP = 'github.com/Trisia/randomness/detect'
 
 
-class StreamBlock(object):
-    """content of a byte buffer: bytes [start, start+n) of the harness stream (n == len of the buffer)"""
-    __slots__ = ('start', 'n', 'fresh')
-
-    def __init__(self, start, n, fresh=True):
-        self.start = start
-        self.n = n
-        self.fresh = fresh
-
-
 class Script(object):
     pass
 
@@ -268,7 +258,7 @@ def sd_readfull(ex, fr, st, args, ins):
     r, buf = args
     sp = r.val
     fields = ex.load(st, sp, r.typ[1:])
-    pos, reads, failAt, failErr, maxChunk, kind = fields
+    pos, reads, failAt, failErr, maxChunk, kind = fields[:6]
     n = buf.len
     if not (isinstance(failAt, int) and failAt < 0):
         raise Unsupported('ReadFull on a failing stream (single detect stub)')
@@ -308,6 +298,307 @@ def sd_poker_expect(ex, fr, st, args, ins):
 def _single():
     from intr import RP
     return {
-        '#makeslice_sym': sd_makeslice_sym, 'io.ReadFull': sd_readfull,
+        '#makeslice_sym': sd_makeslice_sym, 'io.ReadFull': wf_readfull_general,
         RP + '.PokerTestBytes': sd_poker_bytes, '#vPokerExpect': sd_poker_expect,
     }
+
+
+# ---------------------------------------------------------------------------------------------
+# goroutines / channels / WaitGroup / mutex under ONE schedule (sequentialisation): goroutines started with `go`
+# are parked; at WaitGroup.Wait they run one after another, each until it returns or blocks on an empty channel.
+# Schedule independence is argued from the per-iteration disjointness / commutation obligations (DESIGN 3).
+
+class Parked(BaseException):
+    def __init__(self, st):
+        self.st = st
+
+
+def _conc(ex):
+    c = ex.__dict__.get('conc')
+    if c is None:
+        c = {'chans': {}, 'pending': [], 'nchan': 0, 'lockdepth': 0, 'reads_unlocked': 0, 'finished': 0, 'parked': 0}
+        ex.conc = c
+    return c
+
+
+def c_makechan(ex, fr, st, ins):
+    c = _conc(ex)
+    c['nchan'] += 1
+    cid = c['nchan']
+    c['chans'][cid] = {'q': [], 'closed': False}
+    return Opaque('chan', cid)
+
+
+def c_send(ex, fr, st, ch, v, ins):
+    c = _conc(ex)
+    q = c['chans'][ch.data]
+    if q['closed']:
+        ex.oblige('panic', st, True, 'send on closed channel', ins.get('pos', ''))
+        raise __import__('core').PathDead()
+    q['q'].append(v)
+    return None
+
+
+def c_recv(ex, fr, st, ch, ins):
+    c = _conc(ex)
+    q = c['chans'][ch.data]
+    if q['q']:
+        v = q['q'].pop(0)
+        return (v, True) if ins.get('commaok') else v
+    if q['closed']:
+        return (0, False) if ins.get('commaok') else 0
+    raise Parked(st)
+
+
+def c_close(ex, fr, st, ch, ins):
+    c = _conc(ex)
+    c['chans'][ch.data]['closed'] = True
+    return None
+
+
+def c_go(ex, fr, st, ins):
+    c = _conc(ex)
+    args = [ex.val(fr, a) for a in ins['args']]
+    f = ex.val(fr, ins['fn'])
+    c['pending'].append((f, args))
+    return None
+
+
+def _wg_key(p):
+    return 'wg:%s:%s' % (p.obj, '.'.join(str(x) for x in p.path))
+
+
+def c_wg_add(ex, fr, st, args, ins):
+    k = _wg_key(args[0])
+    st.heap[k] = int_binop('+', st.heap.get(k, 0), args[1], 64, True)
+    return None
+
+
+def c_wg_done(ex, fr, st, args, ins):
+    k = _wg_key(args[0])
+    st.heap[k] = int_binop('-', st.heap.get(k, 0), 1, 64, True)
+    neg = int_cmp('<', st.heap[k], 0, 64, True)
+    if neg is not False:
+        ex.oblige('panic', st, neg, 'sync: negative WaitGroup counter', ins.get('pos', ''))
+    return None
+
+
+def c_wg_wait(ex, fr, st, args, ins):
+    c = _conc(ex)
+    k = _wg_key(args[0])
+    # run the parked goroutines one after another
+    pending, c['pending'] = c['pending'], []
+    for f, a in pending:
+        try:
+            ex.call_value(fr, st, f, a, ins)
+            c['finished'] += 1
+        except Parked as e:
+            c['parked'] += 1
+            st.heap = e.st.heap
+            st.pc = e.st.pc
+    cnt = st.heap.get(k, 0)
+    nz = int_cmp('!=', cnt, 0, 64, True)
+    if nz is not False:
+        ex.oblige('deadlock', st, nz, 'WaitGroup.Wait blocks forever: counter does not reach zero (a worker path misses Done)', ins.get('pos', ''))
+        if nz is True:
+            raise __import__('core').PathDead()
+        st.pc = st.pc + (b_not(nz),)
+    return None
+
+
+def c_lock(ex, fr, st, args, ins):
+    _conc(ex)['lockdepth'] += 1
+    return None
+
+
+def c_unlock(ex, fr, st, args, ins):
+    _conc(ex)['lockdepth'] -= 1
+    return None
+
+
+def c_atomic_add32(ex, fr, st, args, ins):
+    p, d = args
+    old = ex.load(st, p, 'int32')
+    new = int_binop('+', old, d, 32, True)
+    ex.store(st, p, new)
+    return new
+
+
+def c_numcpu(ex, fr, st, args, ins):
+    return 2
+
+
+def vs_read(ex, fr, st, args, ins):
+    """(*vStream).Read: delivers the next bytes of the stream; may deliver fewer than requested (maxChunk) and may
+    fail at stream offset failAt (then the bytes before failAt are still delivered together with the error)"""
+    sp, p = args
+    typ = next(t for t in ex.prog.types if t.endswith('/detect.vStream'))
+    pos, reads, failAt, failErr, maxChunk, kind = ex.load(st, sp, typ)[:6]
+    n = p.len
+    c = _conc(ex)
+    if c['lockdepth'] == 0:
+        c['reads_unlocked'] += 1
+    want = n
+    if not (isinstance(maxChunk, int) and maxChunk <= 0):
+        lim = int_cmp('>', maxChunk, 0, 64, True)
+        small = b_and(lim, int_cmp('<', maxChunk, n, 64, True))
+        want = int_ite(small, maxChunk, n, 64)
+    if isinstance(failAt, int) and failAt < 0:
+        deliver, failc = want, False
+    else:
+        failc = b_and(int_cmp('>=', failAt, 0, 64, True), int_cmp('>', int_binop('+', pos, want, 64, True), failAt, 64, True))
+        rest = int_binop('-', failAt, pos, 64, True)
+        rest = int_ite(int_cmp('<', rest, 0, 64, True), 0, rest, 64)
+        deliver = int_ite(failc, rest, want, 64)
+    if p.off == 0 and p.obj is not None:
+        old = st.heap.get(p.obj)
+        blk = StreamBlock(pos, n)
+        blk.fresh = deliver
+        blk_kind[id(blk)] = kind
+        ex.__dict__.setdefault('blk_keep', []).append(blk)
+        st.heap[p.obj] = blk
+    else:
+        raise Unsupported('vStream.Read into a sub-slice')
+    ex.store(st, Ptr(sp.obj, sp.path + (0,)), int_binop('+', pos, deliver, 64, True))
+    ex.store(st, Ptr(sp.obj, sp.path + (1,)), int_binop('+', reads, 1, 64, True))
+    if failc is False:
+        err = None
+    else:
+        err = Iface('*errors.errorString', Opaque('error', ('stream-failure',)), b_not(failc))
+    return (deliver, err)
+
+
+def wf_readfull_general(ex, fr, st, args, ins):
+    """io.ReadFull by contract on a vStream that may fail / deliver short reads: either the buffer is filled with the
+    next len(buf) bytes and (len, nil) is returned, or the stream fails first: the bytes before the failure point are
+    delivered and a non-nil error is returned (io.EOF, io.ErrUnexpectedEOF or the source's own error)"""
+    r, buf = args
+    sp = r.val
+    pos, reads, failAt, failErr, maxChunk, kind = ex.load(st, sp, r.typ[1:])[:6]
+    n = buf.len
+    c = _conc(ex)
+    if c['lockdepth'] == 0:
+        c['reads_unlocked'] += 1
+    if isinstance(failAt, int) and failAt < 0:
+        ok, deliver = True, n
+    else:
+        ok = b_or(int_cmp('<', failAt, 0, 64, True), int_cmp('<=', int_binop('+', pos, n, 64, True), failAt, 64, True))
+        rest = int_binop('-', failAt, pos, 64, True)
+        rest = int_ite(int_cmp('<', rest, 0, 64, True), 0, rest, 64)
+        deliver = int_ite(ok, n, rest, 64)
+    if not (buf.off == 0 and buf.obj is not None):
+        raise Unsupported('ReadFull into a sub-slice')
+    blk = StreamBlock(pos, n)
+    blk.fresh = deliver
+    blk_kind[id(blk)] = kind
+    ex.__dict__.setdefault('blk_keep', []).append(blk)
+    st.heap[buf.obj] = blk
+    ex.store(st, Ptr(sp.obj, sp.path + (0,)), int_binop('+', pos, deliver, 64, True))
+    # io.ReadFull with an empty buffer returns (0, nil) without calling Read
+    isz = int_cmp('==', n, 0, 64, True)
+    ex.store(st, Ptr(sp.obj, sp.path + (1,)), int_ite(isz, reads, int_binop('+', reads, 1, 64, True), 64))
+    if ok is True:
+        err = None
+    else:
+        err = Iface('*errors.errorString', Opaque('error', ('stream-failure',)), ok)
+    return (deliver, err)
+
+
+def _mk_round2(name, nres):
+    base = _mk_round(name, nres)
+
+    def h(ex, fr, st, args, ins):
+        data = args[0]
+        blk = st.heap.get(data.obj) if data.obj is not None else None
+        fresh = blk.fresh if isinstance(blk, StreamBlock) else 0
+        if fresh is True:
+            fresh = blk.n
+        ex.__dict__.setdefault('round_fresh', []).append(fresh)
+        return base(ex, fr, st, args, ins)
+    return h
+
+
+def wf_round_fresh(ex, fr, st, args, ins):
+    k = args[0]
+    rf = ex.__dict__.get('round_fresh', [])
+    return rf[k] if k < len(rf) else -1
+
+
+def wf_script_reset(ex, fr, st, args, ins):
+    sc = ex.script
+    ex.__dict__.setdefault('script_runs', []).append(sc.calls)
+    sc.calls = []
+    ex.__dict__.setdefault('round_fresh_runs', []).append(ex.__dict__.get('round_fresh', []))
+    ex.round_fresh = []
+    return None
+
+
+def wf_reads_unlocked(ex, fr, st, args, ins):
+    return _conc(ex)['reads_unlocked']
+
+
+def wf_parked(ex, fr, st, args, ins):
+    return _conc(ex)['parked']
+
+
+@stubset('fast')
+def _fast():
+    d = dict(_workflow())
+    d.update({
+        '#makechan': c_makechan, '#send': c_send, '#recv': c_recv, '#close': c_close, '#go': c_go,
+        '(*sync.WaitGroup).Add': c_wg_add, '(*sync.WaitGroup).Done': c_wg_done, '(*sync.WaitGroup).Wait': c_wg_wait,
+        '(*sync.Mutex).Lock': c_lock, '(*sync.Mutex).Unlock': c_unlock,
+        'sync/atomic.AddInt32': c_atomic_add32, 'runtime.NumCPU': c_numcpu,
+        '(*' + DP + '.vStream).Read': vs_read, 'io.ReadFull': wf_readfull_general,
+        DP + '.Round15': _mk_round2('Round15', 15), DP + '.Round12': _mk_round2('Round12', 12),
+        '#vRoundBufFresh': wf_round_fresh, '#vScriptReset': wf_script_reset, '#vReadsUnlocked': wf_reads_unlocked,
+    })
+    return d
+
+
+def wf_round_pos_ok(ex, fr, st, args, ins):
+    s, nbytes = args
+    calls = ex.script.calls
+    ok = True
+    for k in range(s):
+        if k >= len(calls):
+            return False
+        ok = b_and(ok, int_cmp('==', calls[k][3], k * nbytes, 64, True))
+    return ok
+
+
+def wf_fail_err(ex, fr, st, args, ins):
+    return None
+
+
+def wf_guard(ex, fr, st, args, ins):
+    which, src = args
+    return ex.call_named(fr, st, DP + '.fastRun', [which, src], ins)
+
+
+def wf_goroutines(ex, fr, st, args, ins):
+    return 0
+
+
+def wf_goroutine_leak(ex, fr, st, args, ins):
+    """a worker can only block in the receive on its jobs channel: it is released iff that channel gets closed"""
+    c = _conc(ex)
+    if c['parked'] == 0:
+        return False
+    return any(not q['closed'] for q in c['chans'].values())
+
+
+_fast_extra = {
+    '#vRoundPosOK': wf_round_pos_ok, '#vFailErr': wf_fail_err, '#vGuard': wf_guard, '#vGoroutines': wf_goroutines,
+    '#vGoroutineLeak': wf_goroutine_leak,
+}
+_old_fast = REGISTRY['fast']
+
+
+def _fast2():
+    d = _old_fast()
+    d.update(_fast_extra)
+    return d
+
+
+REGISTRY['fast'] = _fast2
